@@ -8,3 +8,36 @@ Theorem C01_snapshot_reads_reference :
     forall k, snap_get fm (cur_snapshot s) k = ref_from fm (llv fm l0) (batches ls) k.
 Proof. exact snapshot_reads_reference. Qed.
 Print Assumptions C01_snapshot_reads_reference.
+
+(* ... and iteration: on every reachable state an iterator over the current
+   snapshot (any bounds, any naive-seek budget, any program of Next / SeekTo /
+   Current calls) behaves like the specification iterator over a strictly
+   ascending list holding exactly the keys of the range that the reference maps
+   to a value, each with that value.  `nonil`: the operator never returns nil
+   (with a nil-returning operator the statement is false: known finding F17b). *)
+From Coq Require Import List.
+From Moss Require Import SegmentFacts Iterator IterBridge IterBridgeFacts.
+Theorem C01_iteration_is_reference :
+  forall (fm : bytes -> value -> bytes -> value) (c : cfg) (l0 : llsnap)
+         (ls : list label) (s : cstate) (start end_ : option bytes) (tries : nat),
+    nonil fm -> run fm c (init l0) ls = Some s -> closed s = false ->
+    let cfg := snap_cfg fm (cur_snapshot s) start end_ tries in
+    (forall prog, run_model fm cfg prog = run_spec fm cfg prog) /\
+    asc (map fst (live_range fm cfg)) /\
+    (forall k v, In (k, v) (live_range fm cfg) <->
+       in_range start end_ k = true /\ v <> None /\
+       v = ref_from fm (llv fm l0) (batches ls) k).
+Proof. exact iteration_is_reference. Qed.
+Print Assumptions C01_iteration_is_reference.
+
+(* the lower level's part of that iterator is what the lower level's own
+   iterator enumerates *)
+Theorem C01_lower_level_entries_are_its_iteration :
+  forall (fm : bytes -> value -> bytes -> value) (l : llsnap),
+    nonil fm ->
+    map (fun e => (fst e, Some (snd e))) (ll_entries fm l) = live_range fm (ll_cfg l).
+Proof. exact ll_entries_is_ll_iteration. Qed.
+Print Assumptions C01_lower_level_entries_are_its_iteration.
+
+Example nonil_is_satisfiable : nonil (fun _ cur v => Some (match cur with Some c => c ++ v | None => v end)).
+Proof. intros k cur v. discriminate. Qed.
